@@ -472,7 +472,7 @@ func (cs *Contracts) loadContractFile(path, pkgPath string, imports map[string]s
 			ls.Invariants = append(ls.Invariants, mk("invariant", m[2], m[3]))
 		case cur != nil && head == "at":
 			// at call N of NAME before|after assert|assume[label] expr      /  at ... set TARGET = expr
-			re := regexp.MustCompile(`^at\s+(call|send|recv|mapupdate|return|entry)\s+(\d+|all)(?:\s+of\s+(\S+))?\s+(before|after)\s+(assert|assume|set)(\[[^\]]*\])?\s*(.*)$`)
+			re := regexp.MustCompile(`^at\s+(call|send|recv|mapupdate|select|return|entry)\s+(\d+|all)(?:\s+of\s+(\S+))?\s+(before|after)\s+(assert|assume|set)(\[[^\]]*\])?\s*(.*)$`)
 			m := re.FindStringSubmatch(l)
 			if m == nil {
 				return fmt.Errorf("%s:%d: bad 'at' clause", path, i+1)
